@@ -14,7 +14,8 @@ PROP = dict(
     ],
     assumptions=[
         "patterns: NUM/true/false literals, names, `_`, (expr) with closed literal expressions or names of the enclosing scope, array / "
-        "tuple / dict / set patterns, ...rest, ?: fallbacks with closed literal defaults, nested to any depth; no dynamic @{x} names, "
+        "tuple / dict / set patterns, ...rest, ?: fallbacks (closed literals, names of the enclosing let / function-parameter scope, name + k; also "
+        "inside a component that is itself supplied by a fallback), nested to any depth; no dynamic @{x} names, "
         "no sparse `[a, , c]` array patterns (they panic in FallbackPattern.String - a C10 matter), dict-pattern keys are non-negative "
         "numbers or strings (a parenthesised key panics in DictPattern.Bind - C10)",
         "values: everything Lit generates (numbers, strings, bytes, arrays with offsets and holes, dicts with single-valued keys, sets, "
@@ -22,7 +23,7 @@ PROP = dict(
         "genuinely non-deterministic patterns (two `...`, a name and `...` in a set pattern, ...) have no specified result; the code "
         "rejects them and the check only demands an error there",
     ],
-    level_text="Proof: 25 Lean theorems. Spec.bind is a sound and complete decision procedure for `Matches` (the pattern read as an expression "
+    level_text="Proof: 26 Lean theorems. Spec.bind is a sound and complete decision procedure for `Matches` (the pattern read as an expression "
                "with the bound names substituted rebuilds the value; exactly the pattern's names are bound; ...rest is the unmatched remainder; "
                "fallbacks only for absent components) and matches of deterministic patterns are unique. The transliteration of "
                "Array/Tuple/Dict/Set/Expr/Exprs/Ident/ExtraElement-Pattern.Bind with the repaired Scope.MatchedUpdate equals Spec.bind for every "
